@@ -269,6 +269,23 @@ def _pipeline_chunk(args):
     return n, acc, fails
 
 
+HAND_DOCUMENTS = [
+    "{ hero: hero { name: name } }",
+    "query q($a: Int = 1 @d) { a: a(a: $a) @a(a: a) { ... on a @a { a } } }",
+    'enum Color { "the red one" RED """green""" GREEN @d BLUE }',
+    '"t" type T implements I & J @d { "f" f("a" a: Int = 1 @d): [Int!]! @d } "i" interface I { "g" g: Int } interface J { h: Int }',
+    '"in" input In @d { "x" x: Int = 1 @d y: [In!] = [] }',
+    '"dir" directive @d("a" a: Int = 1) on QUERY | MUTATION | SUBSCRIPTION | FIELD | FRAGMENT_DEFINITION | FRAGMENT_SPREAD | INLINE_FRAGMENT | VARIABLE_DEFINITION '
+    "| SCHEMA | SCALAR | OBJECT | FIELD_DEFINITION | ARGUMENT_DEFINITION | INTERFACE | UNION | ENUM | ENUM_VALUE | INPUT_OBJECT | INPUT_FIELD_DEFINITION",
+    'schema @d { query: Q mutation: M subscription: S } extend schema @e extend schema { mutation: M }',
+    '"u" union U @d = | A | B extend union U = C extend scalar S @d "s" scalar S2',
+    "extend type T implements K extend type T @d extend type T { x: Int } extend interface I @d extend enum E { X } extend input In { z: Int }",
+    "fragment on_ on on { on } query on { ...on_ ... on on { on } ... @d { on } }",
+    "{ a(x: [[1, [2]], {a: {b: [true, null, E, $v, \"s\", \"\"\"b\"\"\", 1.5e3]}}]) }",
+    "subscription s { type: type input: input enum: enum extend: extend fragment: fragment }",
+]
+
+
 def pipeline_corpus(tier, seed):
     import random
     from . import gen_docs as GD
@@ -291,6 +308,11 @@ def pipeline_corpus(tier, seed):
                 eds = rnd.sample(eds, 24)
             for ed in eds:
                 add(entry, GD.render(ed))
+    # hand-written documents for corners the derivation enumerator's naming scheme does not produce (equal alias and name, descriptions on
+    # every describable member, keyword-like names, every directive location)
+    for text in HAND_DOCUMENTS:
+        add("document", text)
+        add("document", text.replace(" ", "  ").replace("{", "{\n"))
     # short raw strings: every string over the alphabets (lexical/syntactic boundary cases)
     for s in strings(ALPHABET, 2):
         for entry in ("document", "value", "type"):
